@@ -41,6 +41,13 @@ fn verif_enum_shwap_types() {
             cases += 1;
             if back.verify(own, &dah).is_err() { println!("WITNESS C04: honest sample ({r},{c},{axis:?}) rejected after encode/decode (width {width})"); panic!("witness"); }
             if back.share != *eds.share(r, c).unwrap() { println!("WITNESS C04: decoded sample carries another share"); panic!("witness"); }
+            // coordinates outside the square never verify
+            for (rr, cc) in [(w, c), (r, w), (u16::MAX, c), (r, u16::MAX), (w, w)] {
+                cases += 1;
+                let id = SampleId::new(rr, cc, 3).unwrap();
+                let (s2, d2) = (sample.clone(), dah.clone());
+                if accepts(move || s2.verify(id, &d2).is_ok()) { println!("WITNESS C04: the sample of ({r},{c}) verifies for ({rr},{cc}), outside a square of width {w}"); panic!("witness"); }
+            }
             for rr in 0..w { for cc in 0..w {
                 if (rr, cc) == (r, c) { continue; }
                 cases += 1;
@@ -60,6 +67,13 @@ fn verif_enum_shwap_types() {
                 let (r2, d2) = (row.clone(), dah.clone());
                 let ok = accepts(move || r2.verify(id, &d2).is_ok());
                 if ok != (rr == r) && !(ok && eds.row(rr).unwrap() == eds.row(r).unwrap()) { println!("WITNESS C05: row {r} verified as row {rr}: {ok} (width {width})"); panic!("witness"); }
+            }
+            // an index outside the square never verifies, whatever the row
+            for rr in [w, w + 1, 2 * w, u16::MAX] {
+                cases += 1;
+                let id = RowId::new(rr, 3).unwrap();
+                let (r2, d2) = (row.clone(), dah.clone());
+                if accepts(move || r2.verify(id, &d2).is_ok()) { println!("WITNESS C05: row {r} verifies as row {rr} of a square of width {w} (there is no such row)"); panic!("witness"); }
             }
             // forged rows: a surplus share (in and out of namespace order), a dropped share, two shares swapped, a share of
             // another row in place of one of its own - none may verify as row r
@@ -122,6 +136,13 @@ fn verif_enum_shwap_types() {
                 let honest = NamespaceData::new(rows.iter().map(|(_, d)| d.clone()).collect());
                 if honest.verify(id, &dah).is_err() { println!("WITNESS C06: the namespace data the square produces for {ns:?} does not verify (width {width})"); panic!("witness"); }
                 for (rid, d) in rows.iter() { if d.verify(*rid, &dah).is_err() { println!("WITNESS C06: row namespace data {rid:?} does not verify"); panic!("witness"); } }
+                // a row index outside the square never verifies
+                for (_, d) in rows.iter() { for rr in [w, 2 * w, u16::MAX] {
+                    cases += 1;
+                    let id_out = RowNamespaceDataId::new(ns, rr, 3).unwrap();
+                    let (d1, d2) = (d.clone(), dah.clone());
+                    if accepts(move || d1.verify(id_out, &d2).is_ok()) { println!("WITNESS C06: row namespace data verifies for row {rr} of a square of width {w}"); panic!("witness"); }
+                }}
                 // tampering: drop the last row, duplicate the last row, reverse the rows (when that changes anything)
                 let all: Vec<_> = rows.iter().map(|(_, d)| d.clone()).collect();
                 let mut variants: Vec<(&str, Vec<_>)> = Vec::new();
